@@ -188,6 +188,12 @@ CollapseEdge(s0, he) ==
 
 (* ------------------------ split_edge / split_face ---------------------- *)
 (* (protected in the topology kernel; reached through the geometry kernel) *)
+(* a child of a split cell: add_cell(4 vertices), then copy_property_elements *)
+(* (parent, child): the child's cell property values are the parent's        *)
+AddChildCell(st, n) ==
+  LET s3 == TetAddCell4(st, n[2], FALSE) IN
+  IF s3.ret = -1 THEN s3 ELSE [s3 EXCEPT !.pC = Put(@, s3.ret, At(@, n[1]))]
+
 SplitEdge(s0, he, v) ==
   IF ~FullBU(s0) THEN SetErr([s0 EXCEPT !.ret = Void], "split_edge_without_full_incidences") ELSE
   LET wasDef == s0.deferred
@@ -199,10 +205,10 @@ SplitEdge(s0, he, v) ==
         IF ch = -1 THEN SetErrAcc(acc) ELSE
         LET w == GetCellVerticesHFHE(acc.s, hf, he)
         IN [s |-> DeleteCell(acc.s, ch),
-            nc |-> acc.nc \o << <<w[1], v, w[3], w[4]>>, <<v, w[2], w[3], w[4]>> >>]
+            nc |-> acc.nc \o << <<ch, <<w[1], v, w[3], w[4]>> >>, <<ch, <<v, w[2], w[3], w[4]>> >> >>]
       r1 == FoldLeft(step, [s |-> s1, nc |-> <<>>], hfc)
       s2 == DeleteEdge(r1.s, Full(he))
-      s3 == FoldLeft(LAMBDA st, w : TetAddCell4(st, w, FALSE), s2, r1.nc)
+      s3 == FoldLeft(AddChildCell, s2, r1.nc)
       s4 == EnableDeferred(s3, wasDef)
   IN [s4 EXCEPT !.ret = Void]
 
@@ -215,10 +221,10 @@ SplitFace(s0, f, v) ==
         IF ch = -1 THEN acc ELSE
         LET w == GetCellVerticesHF(acc.s, hf)
         IN [s |-> DeleteCell(acc.s, ch),
-            nc |-> acc.nc \o << <<w[1], w[2], v, w[4]>>, <<w[1], v, w[3], w[4]>>, <<v, w[2], w[3], w[4]>> >>]
+            nc |-> acc.nc \o << <<ch, <<w[1], w[2], v, w[4]>> >>, <<ch, <<w[1], v, w[3], w[4]>> >>, <<ch, <<v, w[2], w[3], w[4]>> >> >>]
       r1 == FoldLeft(step, [s |-> s1, nc |-> <<>>], <<2 * f, 2 * f + 1>>)
       s2 == DeleteFace(r1.s, f)
-      s3 == FoldLeft(LAMBDA st, w : TetAddCell4(st, w, FALSE), s2, r1.nc)
+      s3 == FoldLeft(AddChildCell, s2, r1.nc)
       s4 == EnableDeferred(s3, wasDef)
   IN [s4 EXCEPT !.ret = Void]
 
@@ -473,6 +479,64 @@ CollapsePropsFollowMsg(pre, he, post, gV, pprops, qprops) ==
        IN IF badI = {} THEN "" ELSE qprops[CHOOSE i \in badI : \A k \in badI : i <= k].k
 CollapsePropsFollow(pre, he, post, gV, pprops, qprops) ==
   CollapsePropsFollowMsg(pre, he, post, gV, pprops, qprops) = ""
+
+(* ------------- C03 through split_edge / split_face: SplitPropsFollow ---- *)
+(* S: vertex set of the split edge / face, n: the inserted vertex (it was    *)
+(* isolated; no vertex slot moves, so vertices correspond handle for handle; *)
+(* edges / faces / cells may be renumbered and correspond by vertex set).    *)
+(*  V          every live vertex keeps its values;                           *)
+(*  E HE F HF  every post edge / face without n corresponds to the pre       *)
+(*             entity on the same vertices and keeps its values (half-       *)
+(*             entities on the same side); those with n are new: default;    *)
+(*  C          a post cell without n is an unsplit pre cell: same values;    *)
+(*             a post cell with n is a child of the split pre cell obtained  *)
+(*             by replacing n with a vertex of S: its value is the PARENT'S  *)
+(*             value or the property's DEFAULT.  The statement allows both   *)
+(*             readings ("new entities start with the default" / children    *)
+(*             inherit); the code chooses "parent" (copy_property_elements   *)
+(*             in split_edge / split_face), and so does the operational      *)
+(*             model (AddChildCell).                                         *)
+SplitPropPairs(pre, post) ==
+  LET ePairs == {x \in LiveE(post) \X LiveE(pre) : EdgeVertSet(post, x[1]) = EdgeVertSet(pre, x[2])}
+      fPairs == {x \in LiveF(post) \X LiveF(pre) : FaceVertSet(post, x[1]) = FaceVertSet(pre, x[2])}
+  IN [V  |-> {<<j, j>> : j \in LiveV(post)},
+      C  |-> {x \in LiveC(post) \X LiveC(pre) : CellVertSet(post, x[1]) = CellVertSet(pre, x[2])},
+      E  |-> ePairs,
+      HE |-> UNION {{<<2 * x[1] + sd,
+                       IF From(post, 2 * x[1] + sd) = From(pre, 2 * x[2]) THEN 2 * x[2] ELSE 2 * x[2] + 1>> : sd \in {0, 1}} : x \in ePairs},
+      F  |-> fPairs,
+      HF |-> UNION {{<<2 * x[1] + sd,
+                       IF HFVerts(post, 2 * x[1] + sd) \in Rots(HFVerts(pre, 2 * x[2])) THEN 2 * x[2] ELSE 2 * x[2] + 1>> : sd \in {0, 1}} : x \in fPairs},
+      M  |-> {}]
+(* slots of kind k of post that belong to entities containing the new vertex *)
+SplitNewSlots(post, n, k) ==
+  CASE k = "E"  -> {e \in LiveE(post) : n \in EdgeVertSet(post, e)}
+    [] k = "HE" -> {h \in LiveHE(post) : n \in EdgeVertSet(post, Full(h))}
+    [] k = "F"  -> {f \in LiveF(post) : n \in FaceVertSet(post, f)}
+    [] k = "HF" -> {h \in LiveHF(post) : n \in FaceVertSet(post, Full(h))}
+    [] OTHER    -> {}
+SplitChildrenOK(pre, S, n, post, P, Q) ==
+  \A cc \in LiveC(post) : n \in CellVertSet(post, cc) =>
+     LET W == CellVertSet(post, cc)
+         parents == {c0 \in LiveC(pre) : S \subseteq CellVertSet(pre, c0) /\
+                        \E v \in S : CellVertSet(pre, c0) = (W \ {n}) \cup {v}}
+     IN \/ At(Q.v, cc) = Q.d
+        \/ \E c0 \in parents : c0 \in 0 .. (Len(P.v) - 1) /\ At(Q.v, cc) = At(P.v, c0)
+(* "" or the kind of the first property that does not follow                *)
+SplitPropsFollowMsg(pre, S, n, post, pprops, qprops) ==
+  IF Len(qprops) # Len(pprops) THEN "count"
+  ELSE IF \E i \in DOMAIN qprops : qprops[i].k # pprops[i].k \/ ~PropSized(post, qprops[i]) THEN "sizes"
+  ELSE LET pairs == SplitPropPairs(pre, post)
+           bad(i) == LET P == pprops[i]  Q == qprops[i] IN
+                     \/ ~PropKeeps(P, Q, pairs[Q.k])
+                     \/ \E j \in SplitNewSlots(post, n, Q.k) : At(Q.v, j) # Q.d
+                     \/ Q.k = "C" /\ ~SplitChildrenOK(pre, S, n, post, P, Q)
+           badI  == {i \in DOMAIN qprops : bad(i)}
+       IN IF badI = {} THEN "" ELSE qprops[CHOOSE i \in badI : \A k \in badI : i <= k].k
+(* contract: a simplicial complex, the inserted vertex live and isolated     *)
+SplitInContract(pre, S, n) ==
+  /\ TetComplex(pre) /\ n \in LiveV(pre) /\ n \notin S
+  /\ \A e \in LiveE(pre) : n \notin EdgeVertSet(pre, e)
 
 (* candidate vertex maps when none is supplied: nothing moved, or the       *)
 (* survivors kept their order                                               *)
